@@ -1151,6 +1151,11 @@ func (s *Server) opDelete(gvr schema.GroupVersionResource, ns, name string, opts
 				p = PropForeground
 			case metav1.DeletePropagationOrphan:
 				p = PropOrphan
+			case metav1.DeletePropagationBackground:
+			default:
+				// a real API server answers 422 to a propagation policy that is none of the three values
+				s.noteUnexpected("DELETE of %d with the unsupported propagation policy %q", id, string(*opts.PropagationPolicy))
+				return apierrors.NewBadRequest("unsupported propagationPolicy")
 			}
 		} else {
 			s.noteUnexpected("DELETE of %d without propagation policy", id)
